@@ -1,4 +1,5 @@
 import LzmaVerif.Proofs.Twins
+import LzmaVerif.Proofs.TwinsCalls
 import LzmaVerif.Generated.TwinParams
 /-!
 # C14 — feature configurations (optimization on/off, std/no_std) behave identically
@@ -15,6 +16,12 @@ instantiated FOR the generated parameters.
   common prefix, for every pair of byte strings.
 * `fast_reject_twins_agree` – the 2-byte fast reject through a clamped unaligned u16 read gives the portable
   verdict whenever two bytes are available (caller's invariant).
+* `match_len_fast_reject_twins_agree` – the same for the whole function as it is called
+  (`get_match_len_fast_reject` = reject, then `extend_match` with `current_len = 2`): whenever the portable twin
+  does not panic the optimized one returns the same length; `match_len_fast_reject_spec` is the byte-wise answer
+  of both.  This is the granularity at which the real function is run against the model (hook
+  `lz_match_len_fast_reject`, driver `twin.reject`); that run corrected the model of `(limit - current_len) as
+  usize` for `limit < current_len` (`extLogical`; witness `Twins.fastReject_small_limit_extends`).
 * `normalize_twins_agree` – hash-table renormalisation: SIMD body + scalar head/tail = scalar everywhere, for
   every vector width and alignment offset, on all i32 values (wrap-around included).
 * `direct_bits_twins_agree` – range decoder direct bits: the x86-64 assembly formulation equals the portable
@@ -24,6 +31,13 @@ instantiated FOR the generated parameters.
   (found by this proof, reproduced on the real code by the transcript engine); `aarch64_sign_test_witness`
   is a divergence between the aarch64 assembly (unsigned compare) and the portable/x86 code (sign test) on
   corrupt streams that cannot be executed in this sandbox (recorded in DESIGN.md as an open observation).
+
+* `direct_bits_dispatch_agrees` – the function as it is called: guard `count > 0 && pos + count ≤ len`, then
+  assembly or portable loop, equals the portable loop from every state with `2^16 ≤ range` — any buffer, any
+  position (also beyond the end), any count; no side condition left, because `count` bits normalise at most
+  `count` times.  The real `decode_direct_bits` (buffer decoder = default dispatch, and the portable loop through
+  a non-buffer reader) is run against `directBitsOpt` / `directPortable` through the hook `rc_decode_direct_bits`
+  (driver `twin.direct`).
 
 no_std vs std has no twin arithmetic (only the Read/Write/Error replacements): it is decided by the
 transcript comparison of the four builds (`harness-feat`), as is every twin end to end.
@@ -38,17 +52,43 @@ theorem extend_match_twins_agree (s1 s2 : List Nat) (h1 : Bytes s1) (h2 : Bytes 
   ok_extendMatch TwinGen.params generated_params_ok.1 s1 s2 h1 h2
 
 theorem extend_match_unsafe_agrees (buf : List Nat) (hB : Bytes buf) (readPos curLen dist limit : Nat)
-    (hb : readPos + curLen + (limit - curLen) ≤ buf.length) :
+    (hc : curLen ≤ limit) (hb : readPos + curLen + (limit - curLen) ≤ buf.length) :
     (extendMatchOptT TwinGen.params buf readPos curLen dist limit).1 =
       curLen + byteMatchLen (slice buf (readPos + curLen) (limit - curLen))
                             (slice buf (readPos + curLen - dist) (limit - curLen)) :=
-  (ok_extendMatchOpt TwinGen.params generated_params_ok.1 buf hB readPos curLen dist limit hb).1
+  (ok_extendMatchOpt TwinGen.params generated_params_ok.1 buf hB readPos curLen dist limit hc hb).1
 
 theorem fast_reject_twins_agree (buf : List Nat) (h2 : 2 ≤ buf.length) (hB : Bytes buf)
     (readPos matchDist : Nat) (hd : matchDist ≤ readPos) (v : Bool)
     (hv : fastRejectPortable buf readPos matchDist = some v) :
     (fastRejectOpt TwinGen.params buf readPos matchDist).1 = v :=
   (ok_fastReject TwinGen.params generated_params_ok.1 buf h2 readPos matchDist).2 hB hd v hv
+
+theorem match_len_fast_reject_twins_agree (buf : List Nat) (hB : Bytes buf) (readPos dist lenLimit : Nat)
+    (hd : dist + 1 ≤ readPos) (v : Nat)
+    (hv : matchLenFastRejectPortable TwinGen.params buf readPos dist lenLimit = some v) :
+    (matchLenFastRejectOptT TwinGen.params buf readPos dist lenLimit).1 = v :=
+  matchLenFastRejectOpt_eq_portable TwinGen.params generated_params_ok.1.2.2.1 generated_params_ok.1.2.2.2.1
+    buf hB readPos dist lenLimit hd v hv
+
+theorem match_len_fast_reject_spec (buf : List Nat) (hB : Bytes buf) (readPos dist lenLimit : Nat)
+    (hd : dist + 1 ≤ readPos) (h2 : 2 ≤ lenLimit) (hb : readPos + lenLimit ≤ buf.length) :
+    (matchLenFastRejectOptT TwinGen.params buf readPos dist lenLimit).1 =
+      (if buf.getD readPos 0 ≠ buf.getD (readPos - (dist + 1)) 0
+            ∨ buf.getD (readPos + 1) 0 ≠ buf.getD (readPos + 1 - (dist + 1)) 0 then 0
+       else 2 + byteMatchLen (slice buf (readPos + 2) (lenLimit - 2))
+                             (slice buf (readPos + 2 - (dist + 1)) (lenLimit - 2))) :=
+  match_len_fast_reject_twins_agree buf hB readPos dist lenLimit hd _
+    (matchLenFastRejectPortable_spec TwinGen.params (by rw [generated_params_ok.1.1]; decide)
+      generated_params_ok.1.2.1 buf hB readPos dist lenLimit h2 hb)
+
+/-- non-vacuity of both: `read_pos = 3`, rep distance 2 (`match_dist = 3`), five bytes repeat -/
+example :
+    let buf := [1, 2, 3, 1, 2, 3, 1, 2, 9]
+    Bytes buf ∧ 2 + 1 ≤ 3 ∧ 2 ≤ 6 ∧ 3 + 6 ≤ buf.length ∧
+    matchLenFastRejectPortable TwinGen.params buf 3 2 6 = some 5 := by
+  refine ⟨?_, by decide, by decide, by decide, by decide⟩
+  intro b hb; simp at hb; omega
 
 theorem normalize_twins_agree (off : Int) (lanes pre : Nat) (ps : List Int) :
     normalizeSimd off lanes pre ps = normalizeScalar off ps :=
@@ -59,6 +99,21 @@ theorem direct_bits_twins_agree (buf : List Nat) (hB : Bytes buf) (hlen : buf.le
     (hin : (directPortable TwinGen.params buf (directFuel k) k s).pos ≤ buf.length) :
     directX86 TwinGen.params buf k s = directPortable TwinGen.params buf (directFuel k) k s :=
   (ok_directBits TwinGen.params generated_params_ok.1 buf hB hlen k s hs0).2.2.1 hin
+
+theorem direct_bits_dispatch_agrees (buf : List Nat) (hB : Bytes buf) (k : Nat) (s : DState)
+    (hs0 : RangeOk s) :
+    directBitsOpt TwinGen.params buf k s = directPortable TwinGen.params buf (directFuel k) k s :=
+  have h := generated_params_ok.1
+  directBitsOpt_eq_portable TwinGen.params h.2.2.2.2.2.1 h.2.2.2.2.2.2.1 h.2.2.2.2.2.2.2.1 h.2.2.2.2.1
+    buf hB k s hs0
+
+/-- non-vacuity: a corrupt-stream state (`code ≥ range`), the guard holds with equality (the assembly runs) -/
+example :
+    let s : DState := ⟨0x00FFFFFF, 0xFFFFFFFF, 1, 0⟩
+    Bytes [1, 2, 0xFF] ∧ RangeOk s ∧ s.range ≤ s.code ∧ s.pos + 2 ≤ [1, 2, 0xFF].length ∧
+    (directBitsOpt TwinGen.params [1, 2, 0xFF] 2 s).pos = 2 := by
+  refine ⟨?_, by unfold RangeOk; decide, by decide, by decide, by decide +kernel⟩
+  intro b hb; simp at hb; omega
 
 /-- what fix e0695aa removed: past the end of the buffer the portable reader supplies 0, the assembly
     re-reads the last byte, and they decode different bits -/
